@@ -1,6 +1,7 @@
 import FormulaicVerif.Model.Parser
 import FormulaicVerif.Proofs.C15
 import FormulaicVerif.Proofs.C15Spans
+import FormulaicVerif.Proofs.C15Ws
 /-! # C15 — Lexing is whitespace-insensitive, quote-faithful and normalises Python code
 
 Property theorems only (helpers: `Proofs/C15.lean`), about `Model.tokenize`/`Model.lexStep`, the
@@ -13,9 +14,10 @@ backslash) is ONE name token with the body verbatim and the span from the openin
 body character; unquoted whitespace is a no-op after an operator / between tokens and otherwise only
 ends the pending token.
 
-FULL (unproved): `ws_insensitive` for whole strings (tokens of `u ++ ws ++ v` equal those of
-`u ++ v` up to spans at every safe gap) — missing: the lemma that token texts/kinds do not depend on
-the source indices threaded through the loop; `span_delimits_text` (the span slices back to the token
+Whole-string whitespace insensitivity is `ws_insensitive` below (one whitespace character inserted at
+any safe gap; iterate for arbitrary re-spacing).
+
+FULL (unproved): `span_delimits_text` (the span slices back to the token
 text) and `brace_verbatim`/`call_verbatim` — covered by the correspondence and the span/verbatim
 oracles only.
 The backslash exclusion in `backtick_verbatim` is not decoration: known finding C15-F1. -/
@@ -62,6 +64,27 @@ statement that failed for `%%]*` before the stale-token repair.) -/
 theorem spans_ordered (cs : List CharInfo) (ts : List Tok) (h : tokenize cs = .ok ts) :
     (∀ t ∈ ts, Proofs.C15Spans.HasSpan cs.length t) ∧ ts.Pairwise Proofs.C15Spans.Before :=
   Proofs.C15Spans.spans_ordered cs ts h
+
+/-- C15.1  **Whitespace insensitivity for whole strings.** Let `u` be any prefix after which no quote
+context is open and the pending token is empty or an operator (i.e. a point around an operator or a
+grouping bracket, or between tokens). Inserting an unquoted whitespace character there changes no
+token text or kind of `u ++ v`, for every continuation `v`; and the string with the whitespace is
+rejected iff the one without it is. (Spans shift, which is why they are erased in the statement.) -/
+theorem ws_insensitive (u v : List CharInfo) (w : CharInfo) (s : LexState)
+    (hu : lexLoop u 0 {} = (s, none)) (hq : s.qc = []) (ht : s.take = 0)
+    (hsp : w.space = true) (hc : w.c ∉ ['%', '{', '`', '(', '[', ')', ']'])
+    (hp : s.tok.nonempty = false ∨ s.tok.kind = some .operator) :
+    (tokenize (u ++ w :: v)).toOption.map (·.map Proofs.C15Ws.erase)
+      = (tokenize (u ++ v)).toOption.map (·.map Proofs.C15Ws.erase) :=
+  Proofs.C15Ws.ws_insensitive u v w s hu hq ht hsp hc hp
+
+/-- C15.1'  Token texts and kinds never depend on the positions threaded through the loop: running
+the lexer from two states that differ only in recorded spans, at different offsets, gives states that
+differ only in recorded spans (and fails in one iff it fails in the other). -/
+theorem positions_irrelevant (cs : List CharInfo) (i j : Nat) (s s' : LexState) (h : Proofs.C15Ws.E s s') :
+    Proofs.C15Ws.E (lexLoop cs i s).1 (lexLoop cs j s').1 ∧
+      (lexLoop cs i s).2.isSome = (lexLoop cs j s').2.isSome :=
+  Proofs.C15Ws.lexLoop_R cs i j s s' h
 
 /-- whitespace is significant exactly where the property does not promise otherwise: between a name and `(` -/
 example :
